@@ -166,9 +166,9 @@ let handle line =
           let bi = fbits back in
           let strict = rt_phys_ok_f (zi 1) (sc s) (off s) (smin s) (smax s) s.s_signed s.s_length pf bi in
           if not strict then incr n_over_one_step;
-          [ ("rule", same_value res_i res_m);
-            ("saturation", (ios l > 52) || sat_ok_f s.s_signed s.s_length res_i ti);
-            ("roundtrip-physical", rt_phys_ok_f (zi 2) (sc s) (off s) (smin s) (smax s) s.s_signed s.s_length pf bi) ]
+          [ ("saturation", (ios l > 52) || sat_ok_f s.s_signed s.s_length res_i ti);
+            ("roundtrip-physical", rt_phys_ok_f (zi 2) (sc s) (off s) (smin s) (smax s) s.s_signed s.s_length pf bi);
+            ("rule", same_value res_i res_m) ]
         end
       in
       verdict line ~agree:(res ^ " " ^ t ^ " " ^ back = model) ~model clauses
